@@ -306,6 +306,44 @@ class _Spelling(ast.NodeTransformer):
   def _size(stmts):
     return sum(1 for st in stmts for _ in ast.walk(st))
 
+  @staticmethod
+  def _merge_same_test(body):
+    """if c: A1 else: B1 ; if c: A2 else: B2  ->  if c: A1; A2 else: B1; B2
+    when the first statement cannot change c (nothing it assigns, and no
+    container it changes in place, is read by the test), no arm leaves the
+    block and neither is an elif chain"""
+    out = []
+    for s in body:
+      p = out[-1] if out else None
+      if isinstance(s, ast.If) and isinstance(p, ast.If) and ast.dump(
+          s.test) == ast.dump(p.test) and not any(
+              len(x.orelse) == 1 and isinstance(x.orelse[0], ast.If)
+              for x in (s, p)) and bool(s.orelse) == bool(p.orelse):
+        reads = {n.id for n in ast.walk(p.test) if isinstance(n, ast.Name)}
+        touched = set()
+        leaves = False
+        calls = False
+        for x in ast.walk(p):
+          if isinstance(x, ast.Name) and isinstance(x.ctx, (ast.Store,
+                                                            ast.Del)):
+            touched.add(x.id)
+          if isinstance(x, (ast.Attribute, ast.Subscript)) and isinstance(
+              x.ctx, (ast.Store, ast.Del)):
+            root = x
+            while isinstance(root, (ast.Attribute, ast.Subscript)):
+              root = root.value
+            if isinstance(root, ast.Name):
+              touched.add(root.id)
+          if isinstance(x, (ast.Return, ast.Raise, ast.Continue, ast.Break)):
+            leaves = True
+        if not (reads & touched) and not leaves and not any(
+            isinstance(x, ast.Call) for x in ast.walk(p.test)):
+          p.body = p.body + s.body
+          p.orelse = p.orelse + s.orelse
+          continue
+      out.append(s)
+    return out
+
   def _flatten(self, body, in_chain=False):
     """early-return form.  When exactly one arm of an if leaves the block
     (return / raise / continue / break) that arm becomes the guard; when both
@@ -368,7 +406,7 @@ class _Spelling(ast.NodeTransformer):
         b = [y for st in b for y in self._ifexp_assign(st)]
         chain = f == 'orelse' and isinstance(n, ast.If) and len(b) == 1 and \
             isinstance(b[0], ast.If)
-        setattr(n, f, self._flatten(b, in_chain=chain))
+        setattr(n, f, self._merge_same_test(self._flatten(b, in_chain=chain)))
     return n
 
   def visit_Attribute(self, n):
